@@ -70,6 +70,7 @@ type State struct {
 	trail     []string
 	variantAt map[*Loop]*Term
 	inLoop    map[*Loop]bool
+	inl       []*inlineFrame // calls of contract-less helpers being executed inline on this path
 	results   []Val
 	objOf     map[*ssa.Alloc]*Term // heap-class allocs: their reference
 	bump      map[string]int       // per-key version for arrays havocked before first touch
@@ -133,6 +134,7 @@ func (s *State) clone() *State {
 	for k, v := range s.inLoop {
 		n.inLoop[k] = v
 	}
+	n.inl = append([]*inlineFrame(nil), s.inl...)
 	for k, v := range s.objOf {
 		n.objOf[k] = v
 	}
